@@ -44,4 +44,9 @@ impl<T> SerialMap<T> {
             Entry::Vacant(_) => None,
         }
     }
+
+    #[cfg(feature = "verif-hooks")]
+    pub(crate) fn verif_iter(&self) -> impl Iterator<Item = (u32, &T)> {
+        self.elems.iter().map(|(&serial, elem)| (serial, elem))
+    }
 }
